@@ -351,9 +351,16 @@ class SFTPFile(BufferedFile):
         self.sftp._log(
             DEBUG, "truncate({}, {!r})".format(hexlify(self.handle), size)
         )
+        # the file's buffered state must not outlive the resize: pending
+        # writes go out first, read-ahead and the cached size are stale after.
+        self.flush()
         attr = SFTPAttributes()
         attr.st_size = size
         self.sftp._request(CMD_FSETSTAT, self.handle, attr)
+        self._rbuffer = bytes()
+        self._realpos = self._pos
+        if self._flags & self.FLAG_APPEND:
+            self._size = size
 
     def check(self, hash_algorithm, offset=0, length=0, block_size=0):
         """
